@@ -164,6 +164,36 @@ where
     }
 }
 
+/// Verification hooks (raw state access); only built with the `verif` feature.
+#[cfg(feature = "verif")]
+#[doc(hidden)]
+impl<T, R> ReservoirSampling<T, R>
+where
+    R: Rng,
+{
+    /// Build a sampler from raw parts.
+    pub fn verif_from_parts(
+        k: usize,
+        rng: R,
+        reservoir: Vec<T>,
+        i: usize,
+        skip_until: usize,
+    ) -> Self {
+        Self {
+            k,
+            rng,
+            reservoir,
+            i,
+            skip_until,
+        }
+    }
+
+    /// Raw `skip_until`.
+    pub fn verif_skip_until(&self) -> usize {
+        self.skip_until
+    }
+}
+
 #[cfg(test)]
 mod tests {
     use super::ReservoirSampling;
